@@ -1,12 +1,23 @@
 #!/bin/bash
-# Applies every seeded change in turn to /repo, runs the quick check of the property it breaks, reverts.
-# Prints one line per seed: CAUGHT / MISSED.
+# Applies every seeded change in turn and runs the quick check of the property it breaks.
+# Prints one line per seed: CAUGHT / MISSED. /repo itself is not touched: a scratch worktree of /repo's HEAD
+# (outside /repo and /verif, removed at the end) stands in for it through VERIF_REPO; with SEEDALL_IN_REPO=1 the
+# patch is applied to /repo instead and reverted straight afterwards.
 cd /verif
+WT="$(mktemp -d /tmp/seedall.XXXXXX)"; rmdir "$WT"
+git -C /repo worktree add -q --detach "$WT" HEAD || exit 2
+trap 'git -C /repo worktree remove --force "$WT" >/dev/null 2>&1' EXIT
 for d in seeded/C*/; do
   s=$(basename $d); p=${s:0:3}
-  git -C /repo apply /verif/$d/patch.diff || { echo "$s: PATCH DOES NOT APPLY"; continue; }
-  ./check $p quick > /tmp/seedall.$s.log 2>&1; rc=$?
-  git -C /repo checkout -- .
-  if [ $rc -eq 1 ]; then echo "$s: CAUGHT by $p ($(grep -m1 'signature:' /tmp/seedall.$s.log | sed 's/ *signature: //'))"; else echo "$s: MISSED by $p (exit $rc)"; fi
-  rm -f /tmp/seedall.$s.log
+  if [ "${SEEDALL_IN_REPO:-0}" = 1 ]; then
+    git -C /repo apply /verif/$d/patch.diff || { echo "$s: PATCH DOES NOT APPLY"; continue; }
+    ./check $p quick > "$WT.log" 2>&1; rc=$?
+    git -C /repo checkout -- .
+  else
+    git -C "$WT" checkout -q -- . ; git -C "$WT" clean -fdq
+    git -C "$WT" apply /verif/$d/patch.diff || { echo "$s: PATCH DOES NOT APPLY"; continue; }
+    VERIF_REPO="$WT" ./check $p quick > "$WT.log" 2>&1; rc=$?
+  fi
+  if [ $rc -eq 1 ]; then echo "$s: CAUGHT by $p ($(grep -m1 'signature:' "$WT.log" | sed 's/ *signature: //'))"; else echo "$s: MISSED by $p (exit $rc)"; fi
+  rm -f "$WT.log"
 done
